@@ -63,18 +63,48 @@ pub fn tags_sound(v: &Variable) -> bool {
     }
 }
 
-pub fn run_code(code: &Code) -> String {
-    let t = code.return_type();
-    let r = panic::catch_unwind(AssertUnwindSafe(|| code.exec()));
+pub const FUEL: u64 = 30_000;
+
+fn monitor_report() -> String {
+    let (viol, observed) = simplesl::verif::finish();
+    let mut out = format!("observed={observed}");
+    for v in viol.iter().take(4) {
+        out.push_str(&format!(
+            " (unsound {} static={} value={} tag={} content={})",
+            v.kind,
+            canon::ty(&v.static_type),
+            canon::value(&v.value),
+            v.tag_ok as u8,
+            v.content_ok as u8
+        ));
+    }
+    out
+}
+
+/// run with the in-crate monitor (hook `verif`) and fuel; `f` is the execution proper
+pub fn run_monitored<F: FnOnce() -> Result<Variable, simplesl::ExecError>>(
+    t: &Type,
+    f: F,
+) -> String {
+    simplesl::verif::start(FUEL);
+    let r = panic::catch_unwind(AssertUnwindSafe(f));
+    let mon = monitor_report();
     match r {
-        Err(_) => format!("(panic {})", take_panic()),
-        Ok(Err(e)) => format!("(error {})", canon::exec_error(&e)),
+        Err(payload) => {
+            if payload.downcast_ref::<simplesl::verif::FuelExhausted>().is_some() {
+                let _ = take_panic();
+                format!("(fuel) {mon}")
+            } else {
+                format!("(panic {}) {mon}", take_panic())
+            }
+        }
+        Ok(Err(e)) => format!("(error {}) {mon}", canon::exec_error(&e)),
         Ok(Ok(v)) => {
-            let tag = v.as_type().matches(&t);
-            let content = inhabits(&v, &t);
+            let tag = v.as_type().matches(t);
+            let content = inhabits(&v, t);
             let sound = tags_sound(&v);
             format!(
-                "(value {} tag={} content={} tags={})",
+                "(value {} tag={} content={} tags={}) {mon}",
                 canon::value(&v),
                 tag as u8,
                 content as u8,
@@ -82,6 +112,11 @@ pub fn run_code(code: &Code) -> String {
             )
         }
     }
+}
+
+pub fn run_code(code: &Code) -> String {
+    let t = code.return_type();
+    run_monitored(&t, || code.exec())
 }
 
 fn interpreter_for(flags: &str) -> Interpreter<'static> {
